@@ -50,7 +50,6 @@ SIG_CONSTANTS = {'SIG_DFL', 'SIG_IGN', 'SIG_BLOCK', 'SIG_UNBLOCK', 'SIG_SETMASK'
 
 def signatures(cfg):
     """The known-finding signatures a structured configuration falls into."""
-    import shlex
     out = set()
     for name, opts in _sections(cfg):
         d = dict(opts)
@@ -67,29 +66,10 @@ def signatures(cfg):
                     out.add('C14-process-num-not-expanded')
             if n is not None and n < 0:
                 out.add('C14-negative-numprocs')
-            sig = d.get('stopsignal')
-            if sig is not None:
-                s = sig.strip().upper()
-                if _int(s) == 0 or s in SIG_CONSTANTS or ('SIG' + s) in SIG_CONSTANTS:
-                    out.add('C14-signal-constants')
-            if 'result_handler' in d and ':' not in d['result_handler']:
-                out.add('C14-result-handler-module')
         if name.startswith(PROGRAMISH) or name in ('supervisord',) or name.startswith('group:'):
             for k, v in opts:
                 if BARE.search(v.replace('%%', '')):
                     out.add('C14-bare-format')
-            env = d.get('environment')
-            if env is not None and '%' not in env:
-                try:
-                    lx = shlex.shlex(env)
-                    lx.wordchars += '/.+-():'
-                    toks = list(lx)
-                    if any(t != ',' for t in toks[3::4]):
-                        out.add('C14-env-separator')
-                except ValueError:
-                    pass
-        if name == 'supervisord' and d.get('loglevel', '').lower().startswith('__'):
-            out.add('C14-loglevel-attribute')
     return out
 
 
@@ -98,20 +78,13 @@ KNOWN_TEXT = {
         'numprocs>1 with a process_name in which %(process_num) occurs only escaped (%%(process_num)) or with zero '
         'precision is accepted and every process of the section gets the same name',
     'C14-negative-numprocs': 'a negative numprocs is accepted silently: the group has no processes and the missing-command check is skipped',
-    'C14-signal-constants': 'stopsignal=0 / SIG_DFL / SIG_IGN / SIG_BLOCK / SIG_UNBLOCK / SIG_SETMASK is accepted as a signal '
-                            '(datatypes.SIGNUMS collects every attribute of `signal` starting with SIG)',
     'C14-bare-format': 'a %s / %r / %a conversion without a (name) is accepted and replaced by the repr of the whole expansions dictionary',
-    'C14-env-separator': 'environment strings whose pairs are not separated by commas (A==1, A=1;B=2) are accepted; the separator token is skipped unchecked',
-    'C14-loglevel-attribute': 'loglevel naming a dunder attribute of class LevelsByDescription (__module__, __dict__) is accepted with a non-integer level',
-    'C14-result-handler-module': 'result_handler without ":attr" resolves to a module object and is accepted as the handler',
     'C14-name-empty-or-bracket': 'an empty section name ([group:], [program:]) or a name containing a bracket is accepted although the documentation forbids it',
 }
 # signatures in which the faithful model accepts too (compared as usual);
 # in the others the model rejects and the implementation's acceptance is the finding
-MODEL_FAITHFUL = {'C14-process-num-not-expanded', 'C14-negative-numprocs', 'C14-signal-constants',
-                  'C14-env-separator', 'C14-name-empty-or-bracket'}
-MODEL_REJECTS = {'C14-bare-format': 'expand_bare', 'C14-loglevel-attribute': 'loglevel',
-                 'C14-result-handler-module': 'result_handler'}
+MODEL_FAITHFUL = {'C14-process-num-not-expanded', 'C14-negative-numprocs', 'C14-name-empty-or-bracket'}
+MODEL_REJECTS = {'C14-bare-format': 'expand_bare'}
 
 
 # ------------------------------------------------------------ monitors on dumps
@@ -131,7 +104,7 @@ def monitor(o, het_names):
         for p in g.process_configs:
             if int(p.stopsignal) not in real_signals or type(p.stopsignal).__name__ == 'Handlers' \
                     or type(p.stopsignal).__name__ == 'Sigmasks':
-                out.append(('C14-signal-constants', 'process %r has stopsignal %r which is not a signal' % (p.name, p.stopsignal)))
+                out.append((None, 'process %r has stopsignal %r which is not a signal' % (p.name, p.stopsignal)))
                 break
     return out
 
